@@ -100,6 +100,13 @@ static void run(const Script& s) {
                 Packet pk(*p, Timestamp(std::chrono::microseconds((long long)num(t[2]))));
                 writer->write(pk);
                 printf("W %u\n", (unsigned)pk.pdu()->size());
+            } else if (t[0] == "wapi" && writer) {
+                // a packet built through the API and written WITHOUT having been serialized before (its derived fields are still unset)
+                size_t n = (size_t)num(t[2]);
+                EthernetII eth = EthernetII("00:01:02:03:04:05", "00:0a:0b:0c:0d:0e") / IP("10.0.0.2", "10.0.0.1") / UDP(53, 1234) / RawPDU(std::string(n, 'a'));
+                Packet pk(eth, Timestamp(std::chrono::microseconds((long long)num(t[1]))));
+                writer->write(pk);
+                printf("W %u %s\n", (unsigned)pk.pdu()->size(), hex(pk.pdu()->serialize()).c_str());
             } else if (t[0] == "wraw" && writer) {
                 bytes b = unhex(t[2]);
                 RawPDU raw(b.begin(), b.end());
@@ -123,8 +130,11 @@ static void run(const Script& s) {
                 if (num(t[1])) sn->set_extract_raw_pdus(true);
                 std::vector<std::string> out;
                 for (;;) {
-                    Packet pk(sn->next_packet());
-                    if (!pk.pdu()) break;
+                    Packet pk0(sn->next_packet());
+                    if (!pk0.pdu()) break;
+                    // handed on the way user code does (into a container, to a by-value callback): a moved packet keeps bytes and timestamp
+                    std::vector<Packet> keep; keep.push_back(std::move(pk0));
+                    Packet pk(std::move(keep.back()));
                     PDU* own = pk.pdu();
                     std::ostringstream os;
                     std::string ser;
@@ -139,10 +149,18 @@ static void run(const Script& s) {
                 uint32_t maxp = (uint32_t)num(t[1]);
                 uint64_t stop = num(t[2]);
                 std::string out = "L";
-                sn.sniff_loop([&](Packet& pk) -> bool {
-                    std::ostringstream os; os << " " << us(pk.timestamp()); out += os.str();
-                    return us(pk.timestamp()) != stop;
-                }, maxp);
+                if (maxp % 2) {
+                    sn.sniff_loop([&](Packet& pk) -> bool {
+                        std::ostringstream os; os << " " << us(pk.timestamp()); out += os.str();
+                        return us(pk.timestamp()) != stop;
+                    }, maxp);
+                } else {
+                    // the callback may also take the packet by value
+                    sn.sniff_loop([&](Packet pk) -> bool {
+                        std::ostringstream os; os << " " << us(pk.timestamp()); out += os.str();
+                        return us(pk.timestamp()) != stop;
+                    }, maxp);
+                }
                 // reading goes on with the same sniffer: what the loop did not hand out must still be there
                 out += " |";
                 for (;;) { Packet pk(sn.next_packet()); if (!pk.pdu()) break; std::ostringstream os; os << " " << us(pk.timestamp()); out += os.str(); }
